@@ -45,6 +45,7 @@ def run(prog, tier, extra=None):
     R1 = res.rule("C19.co-mutation", "a body that changes Wallet.unspent_slips changes available_balance in the matching direction and vice versa", floor=4)
     R3 = res.rule("C19.per-iteration", "loops that spend slips subtract the amount and queue the removal together in each iteration", floor=1)
     R4 = res.rule("C19.sub-without-removal", "every path that subtracts from the balance removes a slip from the unspent list", floor=2)
+    R6 = res.rule("C19.ordinal", "the transaction ordinal the wallet records for a slip is a counter that a placeholder advances by txs_replacements", floor=1)
     R5 = res.rule("C19.reserve-then-fail", "after Wallet::generate_slips reserved slips no caller returns an error (nothing would be pending for them)", floor=2)
     R2 = res.rule("C19.private", "available_balance is written only inside impl Wallet (the field is private)", floor=1)
     fa = FieldAnalysis(prog)
@@ -177,6 +178,44 @@ def run(prog, tier, extra=None):
                 res.add(Finding(R2, "C19.private|field", "Wallet.available_balance is public: any crate can set it without touching unspent_slips", "saito-core/src/core/consensus/wallet.rs"))
             else:
                 res.sample({"rule": R2, "field": "available_balance", "visibility": f["vis"][:40]})
+    # R6: a wallet slip remembers (block id, transaction ordinal, slip index) and transactions are built from those numbers. A light
+    # wallet is fed lite blocks, in which runs of foreign transactions are merged into placeholders: the ordinal must be the counter
+    # Block::generate uses (a placeholder advances it by txs_replacements), not the position in the block's transaction list.
+    from ..expr import show as _show6
+    WOCR = "saito_core::core::consensus::wallet::Wallet::on_chain_reorganization"
+    wb6 = prog.body(WOCR)
+    if wb6 is None:
+        raise LookupError("Wallet::on_chain_reorganization not found")
+    ch6 = Chaser(wb6)
+    ADD_SLIP = "saito_core::core::consensus::wallet::Wallet::add_slip"
+    n6 = 0
+
+    def depends6(e, seen):
+        if has_field(e, "transaction::Transaction", "txs_replacements") or _callee_reads_replacements(prog, e):
+            return True
+        for x in walk(e):
+            if x[0] == "local" and x[1] not in seen:
+                seen.add(x[1])
+                for d in wb6.defs(x[1]):
+                    if d[0] == "stmt" and depends6(ch6.rvalue(d[3], 0), seen):
+                        return True
+        return False
+    for bb, t in wb6.calls():
+        if (t.get("res") or t.get("callee")) != ADD_SLIP or len(t["args"]) < 3:
+            continue
+        n6 += 1
+        res.instance(R6)
+        arg = ch6.origin(t["args"][2])
+        if depends6(arg, set()):
+            res.sample({"rule": R6, "site": wb6.loc(bb), "ordinal": _show6(arg)[:50], "verdict": "a counter that adds txs_replacements for placeholders"})
+        else:
+            res.add(Finding(R6, "C19.ordinal|%d" % n6, "Wallet::on_chain_reorganization records a slip with the transaction ordinal `%s`, which does not account for txs_replacements: in a "
+                            "lite block a payment after a merged placeholder is recorded under the wrong ordinal and every transaction built from that slip names an "
+                            "output that does not exist" % _show6(arg)[:40], wb6.loc(bb)))
+    if n6 == 0:
+        res.instance(R6)
+        res.add(Finding(R6, "C19.ordinal|anchors", "Wallet::on_chain_reorganization no longer records slips through Wallet::add_slip (anchor moved?)", wb6.loc(0)))
+
     # R5: Wallet::generate_slips marks the slips it hands out as spent, takes them off the unspent list and lowers the balance. That is
     # only consistent with the ledger if a transaction spending them follows (it becomes a pending transaction). A caller that can
     # return Err / None after the call leaves slips reserved for nothing: the wallet's unspent list falls below "spendable minus pending".
@@ -215,3 +254,18 @@ def run(prog, tier, extra=None):
         "Necessary for 'available balance equals the sum of the outputs listed as unspent'. It does not decide amounts, agreement with the ledger or event orders.")
     res.assumptions = ["pairing is per body (not per path) by design: see module docstring"]
     return res
+
+
+def _callee_reads_replacements(prog, e):
+    """the expression calls a workspace function that reads Transaction.txs_replacements (`tx_index += Self::tx_index_step(tx)`)"""
+    from ..fields import place_has_field
+    for x in walk(e):
+        if x[0] == "call" and x[1] in prog.bodies:
+            cb = prog.bodies[x[1]]
+            if cb.is_promoted or cb.nblocks > 80:
+                continue
+            for blk in cb.blocks:
+                for st in blk["s"]:
+                    if st[0] == "=" and "txs_replacements" in repr(st[2]):
+                        return True
+    return False
